@@ -56,13 +56,14 @@ Inductive expr :=
 | EMul (a b : expr)
 | EDivC (a : expr) (q : Q)       (* a / q with a constant divisor; q = 0 cannot be evaluated *)
 | EMin (a b : expr)
-| EMax (a b : expr).
+| EMax (a b : expr)
+| EDiv (a b : expr).             (* a / b with any divisor expression; a divisor of value 0 cannot be evaluated *)
 
 Fixpoint free_vars (e : expr) : list ident :=
   match e with
   | EConst _ => []
   | EVar x => [x]
-  | EAdd a b | ESub a b | EMul a b | EMin a b | EMax a b => free_vars a ++ free_vars b
+  | EAdd a b | ESub a b | EMul a b | EMin a b | EMax a b | EDiv a b => free_vars a ++ free_vars b
   | EDivC a _ => free_vars a
   end.
 
@@ -82,6 +83,8 @@ Fixpoint eval (env : ident -> option Q) (e : expr) : option Q :=
                 | Some u, Some v => Some (if Qle_bool u v then u else v) | _, _ => None end
   | EMax a b => match eval env a, eval env b with
                 | Some u, Some v => Some (if Qle_bool u v then v else u) | _, _ => None end
+  | EDiv a b => match eval env a, eval env b with
+                | Some u, Some v => if Qeq_bool v 0 then None else Some (u / v)%Q | _, _ => None end
   end.
 
 (* Expression.evaluate_symbolic: simultaneous substitution (qupulse.utils.sympy.recursive_substitution walks the
@@ -96,6 +99,7 @@ Fixpoint subst (sg : ident -> option expr) (e : expr) : expr :=
   | EDivC a q => EDivC (subst sg a) q
   | EMin a b => EMin (subst sg a) (subst sg b)
   | EMax a b => EMax (subst sg a) (subst sg b)
+  | EDiv a b => EDiv (subst sg a) (subst sg b)
   end.
 
 Definition remove_key {A} (x : ident) (d : list (ident * A)) : list (ident * A) :=
@@ -386,7 +390,7 @@ Fixpoint expr_eqb (a b : expr) : bool :=
   | EConst p, EConst q => Qeq_bool p q
   | EVar x, EVar y => N.eqb x y
   | EAdd a1 a2, EAdd b1 b2 | ESub a1 a2, ESub b1 b2 | EMul a1 a2, EMul b1 b2
-  | EMin a1 a2, EMin b1 b2 | EMax a1 a2, EMax b1 b2 => expr_eqb a1 b1 && expr_eqb a2 b2
+  | EMin a1 a2, EMin b1 b2 | EMax a1 a2, EMax b1 b2 | EDiv a1 a2, EDiv b1 b2 => expr_eqb a1 b1 && expr_eqb a2 b2
   | EDivC a1 p, EDivC b1 q => expr_eqb a1 b1 && Qeq_bool p q
   | _, _ => false
   end.
